@@ -211,15 +211,15 @@ Definition cache_of (st : state) (T : cls) : list (cls * nat) :=
   match nget (st_cache st) T with Some c => c | None => [] end.
 
 Definition implementedBy_super (E : env) (st : state) (T C : cls) : state * option nat :=
-  match mro_of E T with
-  | None => (st, None)                         (* no such class can exist *)
-  | Some mro =>
-      let cache := cache_of st T in
-      (* "if cache is None: cache = implemented_by_self._super_cache = WeakKeyDictionary()" *)
-      let st0 := mkSt (st_decl st) (st_synth st) (nset (st_cache st) T cache) (st_regs st) in
-      match nget cache C with
-      | Some s => (st0, Some s)
-      | None =>
+  let cache := cache_of st T in
+  (* "if cache is None: cache = implemented_by_self._super_cache = WeakKeyDictionary()" *)
+  let st0 := mkSt (st_decl st) (st_synth st) (nset (st_cache st) T cache) (st_regs st) in
+  match nget cache C with
+  | Some s => (st0, Some s)
+  | None =>
+      match mro_of E T with
+      | None => (st0, None)                     (* no such class can exist *)
+      | Some mro =>
           match next_super_class mro C with
           | None => (st0, None)
           | Some nxt =>
